@@ -9,7 +9,7 @@ for r in rounds:
     if r=='1': continue
     t=subprocess.check_output(['python3',root+'/tools/seeded_table.py',r]).decode()
     n=t.count('\n| C')
-    out.append('**Round %s** (%d changes; checks run per change: its target and the neighbouring checks, see `meta.json.checks_run`)\n'%(r,n))
+    out.append('**Round %s** (%d changes; checks run per change: its target and, up to round 9, the neighbouring checks - see `meta.json.checks_run`)\n'%(r,n))
     out.append(t)
 for d in os.listdir(root+'/seeded'):
     m=json.load(open(root+'/seeded/%s/meta.json'%d))
